@@ -131,6 +131,23 @@ Theorem C36_position_check_not_before_delay :
 Proof. exact pos_not_due. Qed.
 Print Assumptions C36_position_check_not_before_delay.
 
+(* The stale check spares an authenticated connection also while its connect command is still
+   inside the application's OnConnect handler (authenticated, on-connect timers not armed yet,
+   the stale timer still the armed one and firing when due): nothing is written or closed, and
+   the whole label is a connect [d] seconds later. *)
+Theorem C36_stale_spares_connecting :
+  forall g s e c fp fi d,
+    unusable s = false -> snd (connect_slow g s e c fp fi d) = [].
+Proof. exact stale_spares_connecting. Qed.
+Print Assumptions C36_stale_spares_connecting.
+
+Theorem C36_slow_connect_is_late_connect :
+  forall g s e c fp fi d,
+    unusable s = false ->
+    connect_slow g s e c fp fi d = (connect g (advance s d) e c fp fi, []).
+Proof. exact connect_slow_eq. Qed.
+Print Assumptions C36_slow_connect_is_late_connect.
+
 (* Non-vacuity: a run with ping, pong, refresh and an expiry close. *)
 Definition ex_cfg := mkCfg 20 10 23 20 10 10 false RNone SFail 0.
 Example C36_ex_run :
